@@ -2,20 +2,20 @@
 # usage: tools/confirm_mutant.sh <dir-with-patch.diff-and-demo_*.rs> <logfile>
 # Confirms in a scratch worktree of /repo HEAD: patch applies + builds, unedited suite passes with it,
 # demo fails with it and passes without it. Appends a JSON line to <logfile>.
-D="$1"; LOG="$2"; WT=/tmp/wt-confirm
+D="$1"; LOG="$2"; WT="${WT:-/tmp/wt-confirm}"
 export CARGO_NET_OFFLINE=true CARGO_TARGET_DIR=$WT/target
 [ -d $WT ] || git -C /repo worktree add -q --detach $WT HEAD || exit 9
 cd $WT && git checkout -q --detach $(git -C /repo rev-parse HEAD) && git checkout -- . && git clean -fdq -e target
 NAME=$(basename "$D"); DEMO=$(ls "$D"/*.rs | head -1); DN=$(basename "$DEMO" .rs)
 git apply "$D/patch.diff" || { echo "{\"name\":\"$NAME\",\"applies\":false}" >> "$LOG"; exit 1; }
-cargo build --offline >/tmp/confirm_build.log 2>&1; BUILD=$?
+cargo build --offline >$WT.build.log 2>&1; BUILD=$?
 SUITE=$(cargo nextest run --workspace --no-fail-fast --test-threads 8 --offline 2>&1 | grep -E "Summary" | tail -1)
 FAILS=$(cargo nextest run --workspace --no-fail-fast --test-threads 8 --offline 2>&1 | grep -E "^\s+FAIL" | awk '{print $NF}' | sort -u | tr '\n' ' ')
 rm -f tests/property_tests.proptest-regressions
 cp "$DEMO" tests/
-cargo test --offline --test "$DN" >/tmp/confirm_demo_with.log 2>&1; WITH=$?
+cargo test --offline --test "$DN" >$WT.demo_with.log 2>&1; WITH=$?
 git apply -R "$D/patch.diff"
-cargo test --offline --test "$DN" >/tmp/confirm_demo_without.log 2>&1; WITHOUT=$?
+cargo test --offline --test "$DN" >$WT.demo_without.log 2>&1; WITHOUT=$?
 rm -f tests/"$DN".rs tests/property_tests.proptest-regressions
 git checkout -- . ; git clean -fdq -e target
 echo "{\"name\":\"$NAME\",\"applies\":true,\"build_exit\":$BUILD,\"suite\":\"$SUITE\",\"second_suite_run_failures\":\"$FAILS\",\"demo_exit_with_patch\":$WITH,\"demo_exit_without_patch\":$WITHOUT}" >> "$LOG"
